@@ -190,6 +190,10 @@ pub enum Step {
     /// its reply (after this many ms, before the 100 ms deadline) and its ID-scrub notice are both
     /// waiting when the driver gets going again, to be handled in whichever order it picks
     TimeoutBehindStalledWrite(u64),
+    /// an operation (0 single, 1 start of a streaming search, 2 search() call) whose future is dropped by
+    /// its caller (an application-level timeout around the call, no `with_timeout`) while the request is
+    /// still queued behind another handle's stuck write: the driver finds it stale when it gets there
+    GivenUpBeforeTheDriverSawIt(u8),
     AbandonFinished,
     AbandonTimedOut,
     AbandonInflight,
@@ -220,6 +224,9 @@ impl Step {
             Step::TimeoutWhileWriteStalled(1, _) => "stream-start-timeout-while-the-request-is-being-written",
             Step::TimeoutWhileWriteStalled(..) => "search()-timeout-while-the-request-is-being-written",
             Step::TimeoutBehindStalledWrite(_) => "single-op-timeout-whose-reply-and-id-scrub-reach-the-busy-driver-together",
+            Step::GivenUpBeforeTheDriverSawIt(0) => "single-op-dropped-by-its-caller-before-the-driver-saw-the-request",
+            Step::GivenUpBeforeTheDriverSawIt(1) => "stream-start-dropped-by-its-caller-before-the-driver-saw-the-request",
+            Step::GivenUpBeforeTheDriverSawIt(_) => "search()-dropped-by-its-caller-before-the-driver-saw-the-request",
             Step::AbandonFinished => "abandon-of-finished-op",
             Step::AbandonTimedOut => "abandon-of-timed-out-op",
             Step::AbandonInflight => "abandon-of-inflight-op",
@@ -231,7 +238,8 @@ impl Step {
 }
 
 pub fn gen_step(rng: &mut Rng) -> Step {
-    match rng.below(16) {
+    match rng.below(17) {
+        16 => Step::GivenUpBeforeTheDriverSawIt(rng.below(3) as u8),
         15 => Step::TimeoutBehindStalledWrite(*rng.pick(&[0u64, 20, 50, 99, 100, 150, 299])),
         14 => Step::TimeoutWhileWriteStalled(rng.below(3) as u8, rng.bool()),
         13 => {
@@ -405,6 +413,27 @@ pub async fn run_step(ldap: &mut Ldap, other: &mut Ldap, step: &Step, tok: u64, 
             let ao = a.await.unwrap_or_else(|_| "task-died".into());
             let bo = b.await.unwrap_or_else(|_| "task-died".into());
             obs.outcome = format!("{}+{}", ao, bo);
+            if bo != "Ok" {
+                obs.outcome = format!("HUNG-or-failed:{}", obs.outcome);
+            }
+        }
+        Step::GivenUpBeforeTheDriverSawIt(kind) => {
+            // the peer stops reading; another handle's request gets stuck in the driver's write
+            ctl.stall_writes_after(0);
+            let mut l3 = other.clone();
+            let dn = format!("op={},b=normal", tok);
+            let b = tokio::spawn(async move { world::watchdog(invoke(&mut l3, &Call::Delete { dn })).await.unwrap_or(Outcome::Hung).class() });
+            world::settle().await;
+            let mut l2 = ldap.clone();
+            let gave_up = match kind {
+                0 => tokio::time::timeout(Duration::from_millis(50), invoke(&mut l2, &Call::Delete { dn: format!("op={},b=normal", tok) })).await.is_err(),
+                1 => tokio::time::timeout(Duration::from_millis(50), l2.streaming_search(&format!("op={},b=items2", tok), Scope::Subtree, "(a=b)", vec!["*"])).await.is_err(),
+                _ => tokio::time::timeout(Duration::from_millis(50), l2.search(&format!("op={},b=items2", tok), Scope::Subtree, "(a=b)", vec!["*"])).await.is_err(),
+            };
+            tokio::time::sleep(Duration::from_millis(250)).await;
+            ctl.release_writes();
+            let bo = b.await.unwrap_or_else(|_| "task-died".into());
+            obs.outcome = format!("gave-up={}+{}", gave_up, bo);
             if bo != "Ok" {
                 obs.outcome = format!("HUNG-or-failed:{}", obs.outcome);
             }
@@ -648,4 +677,23 @@ pub fn replay(ctx: &Ctx, v: &Value) -> Report {
     }
     let _ = gen::token_of(b"");
     rep
+}
+
+/// A Search whose reader gave up (stream dropped without finish(), finished early, collecting call
+/// cancelled) while the server went on to send the rest of the result, final result included: once
+/// that has arrived and nothing is outstanding, no ID is reserved and no routing entry is left.
+pub fn given_up_searches(ctx: &Ctx) -> Report {
+    let n = ctx.n(4_000, 2_000_000);
+    par_cases(ctx, "given_up_searches", n, ctx.secs(10, 200), |i, rng, rep| {
+        let o = crate::lanes::c10::dropped_neighbour_case(rng);
+        let replay = json!({"lane":"given_up_searches","case":i});
+        if !o.ids_left.is_empty() {
+            rep.violation(format!("C13:id-retained-after:search-given-up-by-its-reader-and-completed-by-the-server:{}", o.how), format!("{}: IDs {:?} still reserved with nothing outstanding; driver {}", o.how, o.ids_left, o.driver), replay.clone());
+        }
+        if o.maps_left != (0, 0) {
+            rep.violation(format!("C13:routing-state-retained-after:search-given-up-by-its-reader-and-completed-by-the-server:{}", o.how), format!("{}: result map {} search map {}", o.how, o.maps_left.0, o.maps_left.1), replay);
+        }
+        rep.count(&format!("given_up_{}", o.how), 1);
+        rep.case(Some(fnv(format!("{}{}{}", o.how, o.split, o.b_expected.len()).as_bytes())));
+    })
 }
